@@ -319,8 +319,59 @@ def nontrivial(case, out):
     return out not in ("ERR", "-")
 
 
+def conflicting_parameters(ctx, dist):
+    """algorithm parameters named in several headers with DIFFERENT values (apu / apv for ECDH-ES, p2c for PBES2, alg,
+    enc): the producer must use the value the merged header gives (protected over shared unprotected over
+    per-recipient), i.e. the one a consumer will read -- observed end to end: the product must decrypt again
+    (implementation only)"""
+    import jwsgen as G
+    rep = ctx["rep"]
+    bdir = ctx["bdir"]
+    rnd = random.Random(ctx["seed"] + 15)
+    J = G.dumps
+    keys = G.standard_keys(bdir)
+    ec = keys.get("P-256")
+    kw = G.oct_key(rnd, 16)
+    pw = G.oct_key(rnd, 14)
+    req, meta = [], []
+
+    def add(what, tmpl, rcp, key):
+        req.append("jweenc\t%s\t%s\t%s\t%s" % (J(tmpl), "-" if rcp is None else J(rcp), J(key), b"c15".hex()))
+        meta.append((what, key))
+    A, B = G.b64(b"Alice"), G.b64(b"Mallory")
+    if ec:
+        for alg in ("ECDH-ES", "ECDH-ES+A128KW", "ECDH-ES+A256KW"):
+            for prm in ("apu", "apv"):
+                add("%s %s: protected vs per-recipient" % (alg, prm), {"protected": {"alg": alg, "enc": "A128GCM", prm: A}}, {"header": {prm: B}}, G.pub_of(ec))
+                add("%s %s: shared unprotected vs per-recipient" % (alg, prm), {"protected": {"alg": alg, "enc": "A128GCM"}, "unprotected": {prm: A}}, {"header": {prm: B}}, G.pub_of(ec))
+                add("%s %s: protected vs shared unprotected" % (alg, prm), {"protected": {"alg": alg, "enc": "A128GCM", prm: A}, "unprotected": {prm: B}}, None, G.pub_of(ec))
+                add("%s %s: per-recipient only (control)" % (alg, prm), {"protected": {"alg": alg, "enc": "A128GCM"}}, {"header": {prm: B}}, G.pub_of(ec))
+    add("PBES2 p2c: protected vs per-recipient", {"protected": {"alg": "PBES2-HS256+A128KW", "enc": "A128GCM", "p2c": 1000}}, {"header": {"p2c": 2000}}, pw)
+    add("PBES2 p2c: shared unprotected vs per-recipient", {"protected": {"alg": "PBES2-HS256+A128KW", "enc": "A128GCM"}, "unprotected": {"p2c": 1000}}, {"header": {"p2c": 2000}}, pw)
+    add("alg: protected A128KW vs per-recipient A256KW", {"protected": {"alg": "A128KW", "enc": "A128GCM"}}, {"header": {"alg": "A256KW"}}, kw)
+    add("alg: shared unprotected A128KW vs per-recipient A256KW", {"protected": {"enc": "A128GCM"}, "unprotected": {"alg": "A128KW"}}, {"header": {"alg": "A256KW"}}, kw)
+    add("enc: protected A128GCM vs shared unprotected A256GCM", {"protected": {"alg": "A128KW", "enc": "A128GCM"}, "unprotected": {"enc": "A256GCM"}}, None, kw)
+    outs = G.harness(bdir, req)
+    dec, dmeta = [], []
+    for r, o, (what, key) in zip(req, outs, meta):
+        if o.startswith("CRASH"):
+            rep.violation("conflict:crash", "crash: " + o[:200], {"case": r})
+        elif o != "ERR":
+            dkey = ec if key.get("kty") == "EC" else key
+            dec.append("jwedec\t%s\t-\t%s" % (o, J(dkey)))
+            dmeta.append((what, r))
+    for c, o, (what, r) in zip(dec, G.harness(bdir, dec), dmeta):
+        if o != "OK " + b"c15".hex():
+            rep.violation("conflict:product-does-not-decrypt:" + what.split(":")[0], "%s: the JWE produced by jose_jwe_enc does not decrypt again -- the producer used another value than the merged header names" % what,
+                          {"case": c[:2500], "produced_by": r[:1500], "implementation": o[:100]})
+    dist["conflicting algorithm parameters, end to end"] = len(req)
+    return len(req) + len(dec)
+
+
 def correspond(ctx):
+    ncf = conflicting_parameters(ctx, collections.Counter())
     cases, dist = gen(ctx["tier"], ctx["seed"], ctx["bdir"])
+    dist["conflicting algorithm parameters (apu/apv/p2c/alg/enc in two headers), end to end"] = ncf
     # drop wrapalg cases whose key cannot be used with the algorithm the header / the suggestion names:
     # decided on the implementation-independent side (python), before running anything
     kept = []
